@@ -189,6 +189,42 @@ func checkPlain(g *ref.Grammar, src string, n int) (nontrivial bool, cls string,
 	return false, cls, nil
 }
 
+// irrelevantDirectives writes up to three precedence levels over terminals and productions of a grammar (every handle
+// at most once).  For a grammar without LALR(1) conflicts they have nothing to resolve: the table must be handed out
+// and accept the same language.  choose(k) returns a number in [0, k).
+func irrelevantDirectives(g *ref.Grammar, choose func(k int) int) string {
+	levels := make([][]string, 3)
+	for _, a := range g.Terms {
+		if l := choose(5); l < 3 {
+			levels[l] = append(levels[l], fmt.Sprintf("%q", a))
+		}
+	}
+	for _, p := range g.Prods {
+		if l := choose(6); l < 3 {
+			var ss []string
+			for _, s := range p.Body {
+				isNT := false
+				for _, n := range g.NTs {
+					isNT = isNT || n == s
+				}
+				if isNT {
+					ss = append(ss, s)
+				} else {
+					ss = append(ss, fmt.Sprintf("%q", s))
+				}
+			}
+			levels[l] = append(levels[l], fmt.Sprintf("<%s = %s>", p.Head, strings.Join(ss, " ")))
+		}
+	}
+	var b strings.Builder
+	for _, hs := range levels {
+		if len(hs) > 0 {
+			fmt.Fprintf(&b, "%s %s;\n", []string{"@left", "@right", "@none"}[choose(3)], strings.Join(hs, " "))
+		}
+	}
+	return b.String()
+}
+
 type family struct {
 	name  string
 	g     *ref.Grammar
@@ -244,6 +280,21 @@ func TestTextbookFamilies(t *testing.T) {
 		rec.Sample("family-"+cls, src)
 		if err != nil {
 			rec.Fail(t, "plain", input{Kind: "plain", Spec: src, Grammar: f.g, N: 6}, "%v", err)
+		}
+		if f.lalr && !f.g.Cyclic() {
+			// directives have nothing to resolve in a grammar without conflicts (several fixed choices)
+			for k := 0; k < 6; k++ {
+				state := uint32(k*7919 + 17)
+				dsrc := f.g.Text(irrelevantDirectives(f.g, func(n int) int {
+					state = state*1664525 + 1013904223
+					return int(state>>16) % n
+				}))
+				_, _, err := checkPlain(f.g, dsrc, rec.Pick(6, 7))
+				rec.Case(dsrc, true, "family_"+f.name, "conflict_free_with_directives")
+				if err != nil {
+					rec.Fail(t, "plain", input{Kind: "plain", Spec: dsrc, Grammar: f.g, N: 6}, "%v", err)
+				}
+			}
 		}
 	}
 }
@@ -336,6 +387,14 @@ func TestRandomReducedGrammars(t *testing.T) {
 		rec.Sample("random-"+cls, src)
 		if err != nil {
 			rec.Fail(t, "plain", input{Kind: "plain", Spec: src, Grammar: g, N: rec.Pick(6, 7)}, "%v", err)
+		}
+		if cls == "lalr" && rapid.Bool().Draw(t, "withDirectives") {
+			dsrc := g.Text(irrelevantDirectives(g, func(n int) int { return rapid.IntRange(0, n-1).Draw(t, "choice") }))
+			_, _, err := checkPlain(g, dsrc, rec.Pick(6, 7))
+			rec.Case(dsrc, true, "conflict_free_with_directives")
+			if err != nil {
+				rec.Fail(t, "plain", input{Kind: "plain", Spec: dsrc, Grammar: g, N: rec.Pick(6, 7)}, "%v", err)
+			}
 		}
 	})
 }
